@@ -8,6 +8,9 @@ RULES = [
  (r"aliased operands", "C16"),
  (r"cut short|leaked the constraints copied so far|space dimension overflow|beyond max_space_dimension", "C14"),
  (r"limited extrapolations divided by zero", "C08"),
+ (r"floating point values of magnitude below 1", "C15"),
+ (r"simplify_using_context_assign\(\) of floating point", "C13"),
+ (r"Octagonal_Shape::maximize/minimize with a point|upper_bound_assign_if_exact|Box::relation_with\(Generator\)|Box::generalized_affine_preimage", "C04"),
  (r"Time::operator==|reschedule\(\)|less_than\(\)", "C19"),
  (r"CO_Tree\(Iterator|leaked the copied constraints|applied a prefix of the system", "C14"),
  (r"Status::ascii_load|Pointset_Powerset::ascii_load|PIP_Decision_Node::ascii_load", "C15"),
